@@ -1,0 +1,235 @@
+// Verification hooks. Compiled only with the off-by-default `verif` cargo feature.
+//
+// Nothing in here changes behaviour unless a [Controller] is installed by a
+// verification harness: every hook is a no-op pass-through otherwise.
+
+//! Runtime-verification hooks (feature `verif`): schedule/noise points, a poll
+//! interposer for tasks spawned by the runtime, and read-only observability helpers.
+
+use std::future::Future;
+use std::pin::Pin;
+use std::sync::atomic::AtomicBool;
+use std::sync::atomic::AtomicU64;
+use std::sync::atomic::Ordering;
+use std::sync::Arc;
+use std::sync::RwLock;
+use std::task::Context;
+use std::task::Poll;
+
+use crate::ActorId;
+
+/// Identifiers of the instrumentation points compiled into the crate.
+///
+/// Points with an id `>= IN_LOCK_BASE` are hit while the code holds one of its own
+/// locks; a controller must not block there (yield / spin only).
+#[allow(missing_docs)]
+pub mod pt {
+    pub const SEND_AFTER_STATUS: u32 = 1;
+    pub const SEND_AFTER_ADMIT: u32 = 2;
+    pub const SEND_AFTER_ENQUEUE: u32 = 3;
+    pub const ADMIT_BEFORE_CAS: u32 = 4;
+    pub const TICKET_AFTER_SUB: u32 = 5;
+    pub const DRAIN_AFTER_CLOSE: u32 = 6;
+    pub const DRAIN_AFTER_STATUS: u32 = 7;
+    pub const MARKER_BEFORE_CAS: u32 = 8;
+    pub const MARKER_AFTER_CAS: u32 = 9;
+    pub const WAIT_AFTER_NOTIFIED: u32 = 10;
+    pub const NOTIFY_BETWEEN: u32 = 11;
+    pub const STATUS_AFTER_PUBLISH: u32 = 12;
+    pub const STATUS_BEFORE_NOTIFY: u32 = 13;
+    pub const TERMINATE_VISIT: u32 = 14;
+    pub const CLEANUP_AFTER_STOPPING: u32 = 15;
+    pub const CLEANUP_AFTER_TERMINATE: u32 = 16;
+    pub const CLEANUP_AFTER_NOTIFY: u32 = 17;
+    pub const CLEANUP_AFTER_UNLINK: u32 = 18;
+    pub const START_AFTER_PRESTART: u32 = 19;
+    pub const START_AFTER_LINK: u32 = 20;
+    pub const LOOP_PICKED: u32 = 21;
+    pub const LINK_BEFORE_LOCK: u32 = 22;
+    pub const UNLINK_BEFORE_LOCK: u32 = 23;
+    pub const TAKE_CHILDREN_BEFORE_LOCK: u32 = 24;
+    pub const NOTIFY_SUP_BEFORE_SEND: u32 = 25;
+    pub const REGISTRY_REGISTER: u32 = 26;
+    pub const REGISTRY_UNREGISTER: u32 = 27;
+    pub const PID_REGISTER: u32 = 28;
+    pub const PID_UNREGISTER: u32 = 29;
+    pub const PG_JOIN_AFTER_FILTER: u32 = 30;
+    pub const PG_JOIN_AFTER_ENTRY: u32 = 31;
+    pub const PG_LEAVE_ALL_AFTER_TAKE: u32 = 32;
+    pub const PG_DEMONITOR_ALL_AFTER_TAKE: u32 = 33;
+    pub const PG_MONITOR_AFTER_REGISTER: u32 = 34;
+    pub const PG_LEAVE_ENTER: u32 = 35;
+    pub const STATUS_AFTER_REGISTRY_CLEANUP: u32 = 36;
+    pub const SEND_STOP: u32 = 37;
+    pub const SEND_SIGNAL: u32 = 38;
+    pub const TL_LOOP_PICKED: u32 = 39;
+    pub const TL_START_AFTER_PRESTART: u32 = 40;
+    pub const SERIALIZED_AFTER_ADMIT: u32 = 41;
+    pub const LOOP_AFTER_STOPPING: u32 = 42;
+    pub const CELL_NEW_AFTER_NAME: u32 = 43;
+
+    pub const IN_LOCK_BASE: u32 = 1000;
+    pub const PG_JOIN_IN_ENTRY: u32 = 1001;
+    pub const LINK_IN_LOCK: u32 = 1002;
+}
+
+/// What a controller wants done with a task that is about to be polled.
+#[derive(Debug, Clone, Copy, PartialEq, Eq)]
+pub enum PollDecision {
+    /// Poll the task now.
+    Run,
+    /// Do not poll now: wake the task again and report `Pending` (a legal spurious wake-up).
+    Defer,
+}
+
+/// Identity of a task spawned through `crate::concurrency::spawn*`.
+#[derive(Debug, Clone)]
+pub struct TaskInfo {
+    /// Name passed to `spawn_named` (the actor's name), if any.
+    pub name: Option<String>,
+    /// Process-wide spawn sequence number.
+    pub seq: u64,
+}
+
+/// A verification controller. All methods have pass-through defaults.
+pub trait Controller: Send + Sync + 'static {
+    /// An instrumentation point was reached on the calling thread.
+    fn point(&self, _id: u32, _a: u64, _b: u64) {}
+    /// A wrapped task is about to be polled for the `poll_no`-th time (1-based).
+    fn before_poll(&self, _task: &TaskInfo, _poll_no: u64) -> PollDecision {
+        PollDecision::Run
+    }
+    /// A task was wrapped (spawn time).
+    fn task_spawned(&self, _task: &TaskInfo) {}
+    /// A wrapped task's future was dropped (completed or cancelled).
+    fn task_dropped(&self, _task: &TaskInfo, _completed: bool) {}
+    /// Override for a random draw identified by `kind` (used by `ractor_cluster`).
+    fn override_u64(&self, _kind: u32) -> Option<u64> {
+        None
+    }
+}
+
+static ENABLED: AtomicBool = AtomicBool::new(false);
+static CONTROLLER: RwLock<Option<Arc<dyn Controller>>> = RwLock::new(None);
+static TASK_SEQ: AtomicU64 = AtomicU64::new(0);
+
+/// Install (or with `None` remove) the process-wide controller.
+pub fn set_controller(controller: Option<Arc<dyn Controller>>) {
+    let mut guard = CONTROLLER.write().unwrap_or_else(|e| e.into_inner());
+    ENABLED.store(controller.is_some(), Ordering::SeqCst);
+    *guard = controller;
+}
+
+fn controller() -> Option<Arc<dyn Controller>> {
+    if !ENABLED.load(Ordering::Relaxed) {
+        return None;
+    }
+    CONTROLLER
+        .read()
+        .unwrap_or_else(|e| e.into_inner())
+        .as_ref()
+        .cloned()
+}
+
+/// Encode an [ActorId] into a `u64` for point arguments.
+pub fn id_u64(id: &ActorId) -> u64 {
+    match id {
+        ActorId::Local(pid) => *pid,
+        ActorId::Remote { node_id, pid } => (1u64 << 63) | ((*node_id & 0x7fff_ffff) << 32) | (*pid & 0xffff_ffff),
+    }
+}
+
+/// An instrumentation point. No-op unless a controller is installed.
+#[inline]
+pub fn point(id: u32, a: u64, b: u64) {
+    if let Some(c) = controller() {
+        c.point(id, a, b);
+    }
+}
+
+/// Ask the controller for an override of a random draw.
+pub fn override_u64(kind: u32) -> Option<u64> {
+    controller().and_then(|c| c.override_u64(kind))
+}
+
+/// Fires a point when dropped (used to mark "after the tail expression, before earlier locals drop").
+#[derive(Debug)]
+pub struct PointOnDrop(pub u32, pub u64, pub u64);
+impl Drop for PointOnDrop {
+    fn drop(&mut self) {
+        point(self.0, self.1, self.2);
+    }
+}
+
+/// A future wrapper consulting the controller before each poll.
+pub struct Interposed<F: Future> {
+    fut: Pin<Box<F>>,
+    info: TaskInfo,
+    polls: u64,
+    completed: bool,
+}
+
+impl<F: Future> std::fmt::Debug for Interposed<F> {
+    fn fmt(&self, f: &mut std::fmt::Formatter<'_>) -> std::fmt::Result {
+        f.debug_struct("Interposed").field("info", &self.info).finish()
+    }
+}
+
+impl<F: Future> Future for Interposed<F> {
+    type Output = F::Output;
+    fn poll(mut self: Pin<&mut Self>, cx: &mut Context<'_>) -> Poll<Self::Output> {
+        let this = &mut *self;
+        if let Some(c) = controller() {
+            this.polls += 1;
+            if c.before_poll(&this.info, this.polls) == PollDecision::Defer {
+                cx.waker().wake_by_ref();
+                return Poll::Pending;
+            }
+        }
+        let r = this.fut.as_mut().poll(cx);
+        if r.is_ready() {
+            this.completed = true;
+        }
+        r
+    }
+}
+
+impl<F: Future> Drop for Interposed<F> {
+    fn drop(&mut self) {
+        if let Some(c) = controller() {
+            c.task_dropped(&self.info, self.completed);
+        }
+    }
+}
+
+/// Wrap a future about to be spawned so that the controller can schedule its polls.
+pub fn wrap_spawn<F: Future>(name: Option<&str>, fut: F) -> Interposed<F> {
+    let info = TaskInfo {
+        name: name.map(|s| s.to_string()),
+        seq: TASK_SEQ.fetch_add(1, Ordering::Relaxed),
+    };
+    if let Some(c) = controller() {
+        c.task_spawned(&info);
+    }
+    Interposed {
+        fut: Box::pin(fut),
+        info,
+        polls: 0,
+        completed: false,
+    }
+}
+
+/// Reports which port the actor loop picked (always returns `false`; used as a match guard so
+/// that the hook is a pure addition).
+pub(crate) fn picked(id: &ActorId, msg: &crate::actor::actor_cell::ActorPortMessage) -> bool {
+    use crate::actor::actor_cell::ActorPortMessage as M;
+    let kind = match msg {
+        M::Signal(_) => 0,
+        M::Stop(_) => 1,
+        M::Supervision(_) => 2,
+        M::Message(crate::actor::actor_properties::MuxedMessage::Message(_)) => 3,
+        M::Message(crate::actor::actor_properties::MuxedMessage::Drain) => 4,
+    };
+    point(pt::LOOP_PICKED, id_u64(id), kind);
+    false
+}
